@@ -25,9 +25,9 @@ CONFIG = {
              "(document, path list)."),
     "trusted_base": [
         "modelled, not verified: yamlpath/processor.py 59-167, 811-2627; wrappers/nodecoords.py",
-        "the model is a pure function of an immutable document; the one writing statement of the read path "
-        "(processor.py:1644-1645) is an explicit stream end (Mut); that nothing else writes is what the deep "
-        "snapshot of the real document checks on every query of the run",
+        "the model is a pure function of an immutable document; a writing statement is an explicit stream end "
+        "(Mut) and no read path has one since collector subtraction works on a copy (fix 30ffde4); that nothing "
+        "writes is what the deep snapshot of the real document checks on every query of the run",
         "parameters of the model: keyword-search handler; node-creating branches of _get_optional_nodes",
     ],
     "assumptions": [
@@ -71,13 +71,13 @@ def judge(case, obs):
     for i, p in enumerate(paths):
         req, opt, ex, optd = obs[N * i], obs[N * i + 1], obs[N * i + 2], obs[N * i + 3]
         if mutates(req):
-            fails.append(("required query %r changed the document %r" % (p, doc), has_subtraction(p)))
+            fails.append(("required query %r changed the document %r" % (p, doc), False))
         if mutates(ex):
-            fails.append(("exists(%r) changed the document %r" % (p, doc), has_subtraction(p)))
+            fails.append(("exists(%r) changed the document %r" % (p, doc), False))
         if req.startswith("(ok (") and req != "(ok ())":
             for line, d in ((opt, None), (optd, ec.OPT_DEFAULT)):
                 if mutates(line):
-                    known = has_subtraction(p) or ec.optional_probe(doc, p, d)["lacking"]
+                    known = ec.optional_probe(doc, p, d)["lacking"]
                     fails.append(("optional query %r%s changed the document %r although the path exists (required "
                                   "matched%s)" % (p, "" if d is None else " with default_value %r" % d, doc,
                                                   "; in some branches only" if known else
@@ -116,12 +116,6 @@ def read_changes(case, obs):
     return [case[1][i // N] for i, l in enumerate(obs) if mutates(l) and i % N in (0, 2)]
 
 
-def f16_subtraction(case, obs):
-    """every query of the case that changed the document on a read has a subtraction collector"""
-    bad = read_changes(case, obs) + [p for (p, _d) in opt_changes(case, obs) if has_subtraction(p)]
-    return bool(bad) and all(has_subtraction(p) for p in bad) and not f16b_partial_existence(case, obs)
-
-
 def f16b_partial_existence(case, obs):
     """the only changes are made by optional queries (no subtraction) whose path the required query matches, and
     each of them meets F16b's own condition: the path exists in some branches only - somewhere the optional
@@ -137,7 +131,7 @@ def f16b_partial_existence(case, obs):
     return all(ec.optional_probe(doc, p, d)["lacking"] for (p, d) in bad)
 
 
-FINDING_PREDS = {"subtraction_over_hash": f16_subtraction, "optional_partial_existence": f16b_partial_existence}
+FINDING_PREDS = {"optional_partial_existence": f16b_partial_existence}
 
 
 def classify(case, obs):
